@@ -3,6 +3,7 @@ C11 — dump omits exactly the fields selected by skip rules, exclude and dump=F
 -/
 import DW.Generated.Tables
 import DW.Model.Dump
+import DW.Lemmas.RoundTrip
 
 namespace DW.Props.C11
 open DW
@@ -120,5 +121,55 @@ theorem C11_nan_selects_nothing (v : PyVal) :
     evalCond ⟨.eq, .float .nan⟩ v = some false := by
   cases v <;> simp [evalCond, pyEqLit, PyVal.num?, Lit.num?, NumV.cmp]
   case float f => cases f <;> simp [NumV.cmp]
+
+/-- the `FieldInfo` the generated dumper uses for the attribute `n` -/
+def fiOf (ci : ClassInfo) (n : S) : FieldInfo := (ci.fields.find? (fun f => f.name == n)).getD { name := n }
+
+/-- the key a kept field is written under -/
+def keyOf (eff : MetaCfg) (fi : FieldInfo) : S :=
+  match dumpKey eff fi with
+  | .ok k => k
+  | .error _ => []
+
+/-- **C11 (whole class).** For any class without a catch-all field, any effective Meta, any `exclude=` / `skip_defaults=`
+arguments and any instance: whenever the dump returns, the keys of the dumped dict are exactly — and in declaration
+order — the dump keys of the fields that the reference selection does *not* omit. -/
+theorem C11_dump_keys_exact (std : Std) (ts : Bool) (cfg : Option MetaCfg) (eff : MetaCfg) (args : DumpArgs) (ci : ClassInfo) :
+    ∀ (fs : List (S × PyVal)) (body : List (DVal × DVal)), (∀ p ∈ fs, (fiOf ci p.1).isCatchAll = false) →
+      dumpFields std ts cfg eff args ci fs = .ok body →
+      body.map (·.1) = (fs.filter (fun p => !refOmitted eff args (fiOf ci p.1) p.2)).map (fun p => DVal.str (keyOf eff (fiOf ci p.1)))
+  | [], body, _, h => by
+    simp only [dumpFields, pure, Except.pure, Except.ok.injEq] at h; subst h; rfl
+  | (n, v) :: rest, body, hca, h => by
+    rw [RT.dumpFields_cons_plain std ts cfg eff args ci n v rest (hca (n, v) (by simp))] at h
+    simp only [bind, Except.bind] at h
+    split at h
+    · simp at h
+    · next sk hsk =>
+      have hsel := C11_selection eff args (fiOf ci n) v sk hsk
+      cases sk with
+      | true =>
+        simp only [if_true, pure, Except.pure] at h
+        split at h
+        · simp at h
+        · next more hmore =>
+          simp only [Except.ok.injEq] at h; subst h
+          have ih := C11_dump_keys_exact std ts cfg eff args ci rest more (fun p hp => hca p (by simp [hp])) hmore
+          simp [List.filter, ← hsel, ih]
+      | false =>
+        simp only [Bool.false_eq_true, if_false, pure, Except.pure] at h
+        split at h
+        · simp at h
+        · next k hk =>
+          split at h
+          · simp at h
+          · next d hd =>
+            split at h
+            · simp at h
+            · next more hmore =>
+              simp only [Except.ok.injEq] at h; subst h
+              have ih := C11_dump_keys_exact std ts cfg eff args ci rest more (fun p hp => hca p (by simp [hp])) hmore
+              have hkey : keyOf eff (fiOf ci n) = k := by simp [keyOf, fiOf, hk]
+              simp [List.filter, ← hsel, hkey, ih]
 
 end DW.Props.C11
